@@ -94,6 +94,12 @@ where
                 let state = evm.finalize();
                 output.map(|output| {
                     let result = output.into_immediate_result();
+                    #[cfg(grevm_verif)]
+                    crate::verif::event(crate::verif::Event::SeqCommit {
+                        txid,
+                        result: &result,
+                        state: &state,
+                    });
                     evm.db_mut().commit(state);
                     result
                 })
@@ -121,9 +127,13 @@ where
                         ?error,
                         "skipping invalid transaction during sequential fallback",
                     );
+                    #[cfg(grevm_verif)]
+                    crate::verif::event(crate::verif::Event::SeqSkip { txid });
                     TxExecutionOutcome::Skipped(error)
                 }
                 Err(error) => {
+                    #[cfg(grevm_verif)]
+                    crate::verif::event(crate::verif::Event::SeqError { txid });
                     return SequentialReplayOutput {
                         outcomes,
                         error: Some(GrevmError { txid, error }),
